@@ -156,7 +156,7 @@ type CleanSpec struct {
 }
 
 // Fault: inject at the Nth (1-based) operation of kind Kind whose nominal path
-// contains PathSuffix performed by call CallID (or any call when CallID < 0;
+// contains PathSuffix performed by call CallID (any context when CallID is -1, only outside Match* calls - i.e. Clean - when it is -2;
 // Exec < 0 = any execution).
 type Fault struct {
 	Kind       string `json:"kind"`
